@@ -553,6 +553,8 @@ theorem setStorage_bal (cid : Nat) (m : Mod) (s : State) (live : List Live) (G :
 theorem restoreStorage_sb {s : State} {L : List Inst} (h : SB s L) : SB (restoreStorage s) L := by
   unfold restoreStorage; split <;> exact h
 
+theorem restoreStorage_cur (s : State) : (restoreStorage s).cur = s.cur := (C01.restoreStorage_frame s).cur
+
 theorem provisionContext_bal (cid : Nat) (c : Cfg) (pp : List Nat) (s : State) (G : List Inst)
     (h : SB s G) :
     (∀ r, (provisionContext cid c pp s).2.2 = some r → SB (provisionContext cid c pp s).1 G) ∧
@@ -628,7 +630,7 @@ theorem run_bal (cid : Nat) (c : Cfg) (e : Env) (s : State) (G : List Inst) (h :
     by_cases hadm : e.adm = 2
     · simp only [hadm, if_true]
       rw [hcb]
-      exact cancel_all_bal cid ctx.wkeys ctx.live s1 G hb
+      exact restoreStorage_sb (cancel_all_bal cid ctx.wkeys ctx.live s1 G hb)
     simp only [hadm, if_false]
     have h2 := (startApps_quiet cid e.blocked (order e.ps ctx.apps) [] s1).sb hb
     generalize startApps cid e.blocked [] (order e.ps ctx.apps) s1 = r2 at h2
@@ -637,7 +639,7 @@ theorem run_bal (cid : Nat) (c : Cfg) (e : Env) (s : State) (G : List Inst) (h :
     | false =>
       dsimp only
       rw [hcb]
-      exact cancel_all_bal cid ctx.wkeys ctx.live s2 G h2
+      exact restoreStorage_sb (cancel_all_bal cid ctx.wkeys ctx.live s2 G h2)
     | true =>
       dsimp only
       have h3 := finishSettingUp_bal ctx e.post s2 G h2
@@ -646,7 +648,7 @@ theorem run_bal (cid : Nat) (c : Cfg) (e : Env) (s : State) (G : List Inst) (h :
       cases b3 with
       | false =>
         dsimp only
-        exact unsyncedStop_some_bal ctx' s3 G (h3.2.1.trans hcb) h3.1
+        exact restoreStorage_sb (unsyncedStop_some_bal ctx' s3 G (h3.2.1.trans hcb) h3.1)
       | true =>
         dsimp only
         exact ⟨h3.2.1.trans hcb, h3.2.2.1.trans hcid, h3.2.2.2.1.trans happs, h3.1⟩
@@ -818,13 +820,14 @@ theorem inv3_step {s : State} (h : Inv3 s) (op : Op) : Inv3 (step s op).1 := by
       subst hctx
       dsimp only
       have hc := C01.cancel_frame ctx.cid ctx.cbs ctx.wkeys ctx.live s1
+      have hrc := restoreStorage_cur (cancel ctx.cid ctx.cbs ctx.wkeys ctx.live s1)
       refine ⟨?_, fun ctx' hx => h.cbs ctx' (by
-        have : (cancel ctx.cid ctx.cbs ctx.wkeys ctx.live s1).cur = some ctx' := hx
-        rwa [hc.cur, hf.cur] at this)⟩
+        have : (restoreStorage (cancel ctx.cid ctx.cbs ctx.wkeys ctx.live s1)).cur = some ctx' := hx
+        rwa [hrc, hc.cur, hf.cur] at this)⟩
       unfold SB curLive
-      show Bal (cancel _ _ _ _ s1).events (match (cancel _ _ _ _ s1).cur with | none => [] | some ctx => nq ctx.live) (cancel _ _ _ _ s1).nseq
-      rw [hc.cur, hf.cur, hcb]
-      exact cancel_all_bal _ _ _ _ _ hsb
+      show Bal (restoreStorage (cancel _ _ _ _ s1)).events (match (restoreStorage (cancel _ _ _ _ s1)).cur with | none => [] | some ctx => nq ctx.live) (restoreStorage (cancel _ _ _ _ s1)).nseq
+      rw [hrc, hc.cur, hf.cur, hcb]
+      exact restoreStorage_sb (cancel_all_bal _ _ _ _ _ hsb)
   | stop =>
     refine inv3_bump (p := (_, .ok)) ?_
     refine ⟨?_, fun ctx hx => by cases hx⟩
